@@ -211,6 +211,15 @@ def run(chk, repo):
         chk.decide(ok, "C12.lists", WF(cname + ".freq_response"), short(_ret(m)),
                    why="response must be the %s of the parts' responses at the same frequency" % word, node=m)
 
+    # what the lists' responses are reduced over is read from the list every time (a FilterList is mutable)
+    from .c05 import filter_list_memos
+    chk.rule("C12.lists-live", "nothing computed from the members of a filter list (callables, a summed filter) is kept on "
+                               "the object between calls: after append / item assignment / del the response is that of the "
+                               "current members")
+    _before = len(chk.obls)
+    filter_list_memos(chk, repo.mod(LF), lambda q: "%s:%s" % (repo.mod(LF).relpath, q), "C12.lists-live")
+    if len(chk.obls) == _before:
+        chk.ok("C12.lists-live", "%s:FilterList" % repo.mod(LF).relpath, "no value is kept on a filter list", node=repo.find(LF, "FilterList"))
     chk.rule("C12.dft", "dft: for f in freqs: sum(xn * exp(-1j*n*f) for n, xn in enumerate(blk)); divided by len(blk) "
                         "only under normalize; same sign of the exponent as freq_response")
     df = repo.find(LA, "dft")
@@ -251,6 +260,44 @@ def run(chk, repo):
         chk.decide(not carried, "C12.dft", WA("dft"), "loop over the frequencies carries no state between bins",
                    why="%s keep(s) the value of the previous frequency: every bin after the first depends on the bins before it"
                        % sorted(carried), node=lp_)
+    # a one-shot iterator (enumerate / zip / map / iter / a generator expression) bound to a local once and iterated
+    # inside the loop over the frequencies is used up by the first frequency: every later bin sums nothing
+    ONE_SHOT = ("enumerate", "iter", "zip", "xzip", "map", "xmap", "filter", "xfilter", "reversed", "it.chain", "chain")
+    shots = {}
+    for a_ in ast.walk(df):
+        if isinstance(a_, ast.Assign) and len(a_.targets) == 1 and isinstance(a_.targets[0], ast.Name) and (
+                isinstance(a_.value, ast.GeneratorExp) or (isinstance(a_.value, ast.Call) and unparse(a_.value.func) in ONE_SHOT)):
+            shots[a_.targets[0].id] = a_
+
+    def _iterated_inside_repeated(root, depth, hits):
+        for ch in ast.iter_child_nodes(root):
+            if isinstance(ch, (ast.GeneratorExp, ast.ListComp, ast.SetComp, ast.DictComp)):
+                for k_, g_ in enumerate(ch.generators):
+                    inner_depth = depth + k_ + (0 if k_ == 0 else 0)
+                    if isinstance(g_.iter, ast.Name) and g_.iter.id in shots and (depth > 0 or k_ > 0):
+                        hits.append(g_.iter)
+                    _iterated_inside_repeated(g_.iter, depth + k_, hits)
+                for part in ([ch.elt] if hasattr(ch, "elt") else [ch.key, ch.value]):
+                    _iterated_inside_repeated(ast.Expr(value=part), depth + len(ch.generators), hits)
+            elif isinstance(ch, ast.For):
+                if isinstance(ch.iter, ast.Name) and ch.iter.id in shots and depth > 0:
+                    hits.append(ch.iter)
+                _iterated_inside_repeated(ast.Module(body=ch.body, type_ignores=[]), depth + 1, hits)
+            else:
+                _iterated_inside_repeated(ch, depth, hits)
+    hits_ = []
+    _iterated_inside_repeated(df, 0, hits_)
+    for h_ in hits_:
+        # (bound inside the repeated part itself - a fresh iterator per frequency - is fine)
+        a_ = shots[h_.id]
+        p_, inside_loop = getattr(a_, "_parent", None), False
+        while p_ is not None and p_ is not df:
+            if isinstance(p_, (ast.For, ast.While)):
+                inside_loop = True
+            p_ = getattr(p_, "_parent", None)
+        chk.decide(inside_loop, "C12.dft", WA("dft"), "%s = %s iterated once per frequency" % (h_.id, short(a_.value)),
+                   why="%s is a one-shot iterator built once: the first frequency uses it up and every other bin is an "
+                       "empty sum" % h_.id, node=a_)
     # what one bin is, as an expression of its frequency, with and without normalisation - whether the bins are built
     # by comprehensions or by a loop that appends them
     bins = {}
